@@ -374,6 +374,87 @@ pub fn explore(ctx: &Ctx, report: bool, reversed: bool) -> DetOut {
     DetOut { histories: hs.len() as u64 + 2 * h0.len() as u64, pairs: pairs + (short0.len() * short0.len()) as u64, interleaved_runs: runs.load(Relaxed) + runs0.load(Relaxed), ops: ops.load(Relaxed), digest: digest_a ^ digest_b.rotate_left(17) ^ digest_0.rotate_left(31), distinct_transcripts: distinct.len() }
 }
 
+/// (e) address codecs of different instances on one thread: every sequence of up to `len` calls
+/// (validate / canonicalize+humanize / addr_make of one of a few strings on one of four Api
+/// objects: Bech32 and Bech32m with the same prefix, Bech32 with another prefix, the default),
+/// each sequence on a thread of its own; the answer to the last call must be the answer that call
+/// gets when it is the only one its thread ever made.
+fn codec_instances(ctx: &Ctx, len: usize) -> (u64, u64) {
+    use cosmwasm_std::Api;
+    use cw_multi_test::{MockApiBech32, MockApiBech32m};
+    fn call(api: usize, op: usize, s: &str) -> String {
+        let a32 = MockApiBech32::new("juno");
+        let a32m = MockApiBech32m::new("juno");
+        let other = MockApiBech32::new("osmo");
+        let dflt = MockApi::default();
+        let api: &dyn Api = match api {
+            0 => &a32,
+            1 => &a32m,
+            2 => &other,
+            _ => &dflt,
+        };
+        match op {
+            0 => format!("{:?}", api.addr_validate(s).map_err(|e| e.to_string())),
+            _ => format!("{:?}", api.addr_canonicalize(s).map(|c| api.addr_humanize(&c).map_err(|e| e.to_string())).map_err(|e| e.to_string())),
+        }
+    }
+    let strings: Vec<String> = vec![
+        MockApiBech32::new("juno").addr_make("x").into_string(),
+        MockApiBech32m::new("juno").addr_make("x").into_string(),
+        MockApiBech32::new("osmo").addr_make("x").into_string(),
+        MockApi::default().addr_make("x").into_string(),
+        "garbage".to_string(),
+    ];
+    let mut calls: Vec<(usize, usize, usize)> = vec![];
+    for api in 0..4 {
+        for op in 0..2 {
+            for si in 0..strings.len() {
+                calls.push((api, op, si));
+            }
+        }
+    }
+    let run_seq = |seq: Vec<(usize, usize, usize)>, strings: Vec<String>| -> String {
+        std::thread::spawn(move || {
+            let mut last = String::new();
+            for (api, op, si) in seq {
+                last = call(api, op, &strings[si]);
+            }
+            last
+        })
+        .join()
+        .unwrap_or_else(|_| "PANIC".to_string())
+    };
+    let solo: Vec<String> = calls.iter().map(|c| run_seq(vec![*c], strings.clone())).collect();
+    let mut seqs: Vec<Vec<usize>> = (0..calls.len()).map(|i| vec![i]).collect();
+    let mut all: Vec<Vec<usize>> = vec![];
+    for _ in 1..len {
+        let mut next = vec![];
+        for sq in &seqs {
+            for i in 0..calls.len() {
+                let mut n = sq.clone();
+                n.push(i);
+                next.push(n);
+            }
+        }
+        all.extend(next.iter().cloned());
+        seqs = next;
+    }
+    let runs = AtomicU64::new(0);
+    all.par_iter().for_each(|sq| {
+        let got = run_seq(sq.iter().map(|i| calls[*i]).collect(), strings.clone());
+        runs.fetch_add(1, Relaxed);
+        let last = *sq.last().unwrap();
+        if got != solo[last] {
+            let show = |i: &usize| {
+                let (api, op, si) = calls[*i];
+                format!("{}.{}({})", ["MockApiBech32(juno)", "MockApiBech32m(juno)", "MockApiBech32(osmo)", "MockApi"][api], ["addr_validate", "addr_canonicalize+humanize"][op], strings[si])
+            };
+            ctx.violation("c19:address-codec-instances-interfere", json!({"calls_on_one_thread": sq.iter().map(show).collect::<Vec<_>>(), "answer_to_the_last_call": got, "answer_when_called_alone": solo[last]}));
+        }
+    });
+    (all.len() as u64, runs.load(Relaxed))
+}
+
 pub fn run_c19(ctx: &Ctx) -> i32 {
     let out = explore(ctx, true, false);
     // (c) the whole bounded exploration repeated in a second OS process with another thread count
@@ -414,6 +495,7 @@ pub fn run_c19(ctx: &Ctx) -> i32 {
             ctx.violation("c19:depends-on-environment:RUST_BACKTRACE", json!({"history": format!("{:?}", h), "with RUST_BACKTRACE=0": direct[i], "with RUST_BACKTRACE=1": t_direct[i], "note": "replies_verbatim=<hash>/<total length> is every Reply handed to reply entry points, verbatim"}));
         }
     }
+    let (codec_seqs, _) = codec_instances(ctx, ctx.tier.pick(2, 3));
     // (d) replay validation of an explicit-state exploration: states reached through snapshot
     // restore must equal the states reached by replaying their histories on one App
     let (regcov, _) = crate::reg::explore_registry(ctx, ctx.tier.pick(3, 4));
@@ -427,7 +509,7 @@ pub fn run_c19(ctx: &Ctx) -> i32 {
         "rule": "(a) every history over the operation alphabet up to the length bound, run on two independently built Apps, transcripts (results, events, data, code ids, addresses, checksums, invocation traces, final raw dump) compared; (b) every ordered pair of shorter histories on two Apps in one thread under every interleaving, each transcript compared with its solo transcript; (0) the same with a second, differently configured App (other bonded denomination, unbonding time, rate, commission, balances): solo transcripts of both configurations, and every pair of short histories under every interleaving and both construction orders; (c') histories with caught failures on one thread, directly and from another thread under extra stack frames, in this process (RUST_BACKTRACE=0) and in a second one with RUST_BACKTRACE=1: all four transcripts equal (the transcript includes every Reply verbatim - gas_used and error texts too - and the error texts of malformed and unanswerable queries); (c) digest of everything recomputed in a second OS process with 3 worker threads, which uses the two configurations in the opposite order; distinct_nontrivial = distinct transcripts",
         "exhaustive": true,
         "histories": out.histories, "history_pairs": out.pairs, "interleaved_runs": out.interleaved_runs,
-        "digest": mine, "digest_second_process": other, "environment_histories": eh.len(),
+        "digest": mine, "digest_second_process": other, "environment_histories": eh.len(), "address_codec_call_sequences_each_on_its_own_thread": codec_seqs,
         "registry_exploration_replayed": {"states": regcov["states"], "replays": regcov["traces_validated_against_impl"], "mismatches": regcov["replay_mismatches (hidden state; reported by C19)"]},
         "alphabet": ALL.iter().map(|o| format!("{:?}", o)).collect::<Vec<_>>(),
         "caps_hit": [],
